@@ -1,3 +1,8 @@
 import Lean.Meta.Tactic.Simp.RegisterCommand
-/-! Simp set used to unfold every generated definition as a group (proofs never name a generated local). -/
+/-! Simp sets used to unfold generated definitions as groups.
+`qsc_gen`: every generated definition; `qsc_local`: definitions that are *locals* of the translated function
+(proofs unfold them as a set and never name one); `qsc_attr`: definitions that are attributes of the object or
+return values (API-level names, which proofs may name). -/
 register_simp_attr qsc_gen
+register_simp_attr qsc_local
+register_simp_attr qsc_attr
